@@ -229,6 +229,45 @@ def _rewrite_folds(text: str):
     return text, cnt
 
 
+def _rewrite_try_for_each(text: str, rep: str):
+    """R-tryforeach: `let NAME = RECV.try_for_each(|x| BODY);` -> the definition of Iterator::try_for_each (call the
+    closure on every item in order, stop at the first Err and return it):
+       `let NAME = { let vrecv = RECV; let vf = |x: ARGTY| -> (q: RETTY) ENSURES { BODY }; let mut vst: RETTY = Ok(());
+                     for x in itf: vrecv { vst = vf(x); if vst.is_err() { break; } } vst };`
+    `rep` = "ARGTY ;; RETTY ;; ENSURES" (the closure's types and its contract, PROVED from BODY); same lines; the loop
+    gets its invariant through the unit's `loops`."""
+    argty, retty, ens = [t.strip() for t in rep.split(";;")]
+    cnt = 0
+    pos = 0
+    while True:
+        m = mask(text)
+        k = m.find(".try_for_each(", pos)
+        if k < 0:
+            break
+        op = k + len(".try_for_each")
+        cl = match_brace(m, op)
+        cm = re.match(r"\s*\|\s*(?P<x>\w+)\s*\|", m[op + 1:cl])
+        s = m.rfind("let ", 0, k)
+        lm = re.match(r"let\s+(?:mut\s+)?\w+\s*(?::[^=;]+)?=\s*", m[s:]) if s >= 0 else None
+        if not cm or not lm or ";" in m[s:k] or not m[cl + 1:].lstrip().startswith(";"):
+            pos = k + 1
+            continue
+        recv = text[s + lm.end():k]
+        body = text[op + 1 + cm.end():cl].rstrip()
+        x = cm.group("x")
+        new = "%s{ let vrecv = %s; let vf = |%s: %s| -> (q: %s) %s { %s }; let mut vst: %s = Ok(()); for %s in itf: vrecv { vst = vf(%s); if vst.is_err() { break; } } vst }" % (
+            text[s:s + lm.end()], recv, x, argty, retty, ens, body, retty, x, x)
+        old = text[s:cl + 1]
+        need = old.count("\n") - new.count("\n")
+        if need < 0:
+            pos = k + 1
+            continue
+        text = text[:s] + new + "\n" * need + text[cl + 1:]
+        pos = s + len(new)
+        cnt += 1
+    return text, cnt
+
+
 def _rewrite_logs(text: str):
     """R-log: statements `trace!/debug!/info!/warn!/error!(..);` are removed (line count preserved)."""
     cnt = 0
@@ -304,9 +343,11 @@ def _apply_rewrites(text: str, rws: List[Rw], unit: str, log: list) -> str:
         # `_ = e;` (destructuring assignment, unsupported by Verus) -> `let _ = e;` (same meaning)
         rws = list(rws) + [Rw(_DISCARD_PAT, r"\1let _ = ", regex=True, count=None, why="`_ = e;` -> `let _ = e;` (default)")]
     for rw in rws:
-        if rw.kind in ("err", "log", "attrs", "maperr", "letchain", "dropargs", "fold"):
+        if rw.kind in ("err", "log", "attrs", "maperr", "letchain", "dropargs", "fold", "tryforeach"):
             if rw.kind == "fold":
                 text, cnt = _rewrite_folds(text)
+            elif rw.kind == "tryforeach":
+                text, cnt = _rewrite_try_for_each(text, rw.rep)
             elif rw.kind == "dropargs":
                 text, cnt = _rewrite_dropargs(text, rw.pat, rw.rep)
             elif rw.kind == "letchain":
